@@ -315,6 +315,8 @@ func runC12(c *Ctx) {
 	c.rejectionReasons("R12.6")
 	c.rule("R12.7", "an alias is recorded unconditionally (it is resolved when a request arrives, so it may be declared before its target is registered)")
 	c.aliasStoredUnconditionally("R12.7")
+	c.rule("R12.8", "every read of the method table in the dispatcher is a comma-ok lookup (an alias whose target is missing is 'not found', not a zero descriptor)")
+	c.descriptorFromCheckedLookup("R12.8")
 	c.rule("R12.4", "handler arguments are only ever produced by encoding/json or the registered parameter decoder (type mismatches cannot be bypassed)")
 	c.argumentOrigins("R12.4")
 }
